@@ -144,7 +144,7 @@ def force_twin_evidence(rng, bn, nodes, J, twins, query, ev, virt):
 def gen_case(seed, idx, tier):
     rng = gen.rng_for("C01", seed, idx)
     use_virtual = rng.random() < 0.4
-    bn = gen.rand_bn_spec(rng, n_range=(1, 7), max_joint=4096)
+    bn = gen.rand_bn_spec(rng, n_range=(1, 7), max_joint=4096, tiny=0.25 if rng.random() < 0.3 else 0.0)
     twins = add_twins(rng, bn) if rng.random() < 0.3 else []
     nodes, J = oracle.joint_table(bn)
     query, ev, virt = gen_query(rng, bn, nodes, J, allow_virtual=use_virtual)
